@@ -472,9 +472,7 @@ func init() {
 	register(&core.Property{
 		ID:       "C39",
 		Title:    "RPC access control holds for every request shape",
-		Packages: []string{"rpc", "rpc/ethrpc", "types"},
-		Hold:     "R39b (gRPC stream methods ungated) and R39d (Ethereum endpoint ignores the legacy whitelist key) fire; reproduction and repair in progress",
-		Explanation: "Decides R39a-R39e: in the JSON-RPC HTTP handler the dispatch (ServeRequest) is dominated, for a non-loopback client, by a passed IP-whitelist test on the host of r.RemoteAddr, passed basic auth on the same request, and 'not blacklisted and whitelisted' for the last dot-component of the method decoded from the very buffer that is handed to the codec (one body read, same JSON field tag as the codec); " +
+		Packages: []string{"rpc", "rpc/ethrpc", "types"},		Explanation: "Decides R39a-R39e: in the JSON-RPC HTTP handler the dispatch (ServeRequest) is dominated, for a non-loopback client, by a passed IP-whitelist test on the host of r.RemoteAddr, passed basic auth on the same request, and 'not blacklisted and whitelisted' for the last dot-component of the method decoded from the very buffer that is handed to the codec (one body read, same JSON field tag as the codec); " +
 			"nothing else in package rpc serves the net/rpc server and only the gated handler is handed to http.Serve; every gRPC server built in package rpc installs a unary interceptor and — if any registered service has stream methods — a stream interceptor, each calling its handler only after the gate returned nil; the gate admits a non-loopback peer only after the IP-whitelist test on the peer's host and the method white/black-list test on the last slash-component of the full method, and fails closed without a peer; " +
 			"the Ethereum endpoint dispatches only after its own IP test on the host of r.RemoteAddr, is the only handler given to its http.Server, and its IP test reads the same whitelist configuration keys as rpc.InitIPWhitelist; InitCfg initialises all five lists.",
 		NotCovered:  "equality of the admitted address sets of the Ethereum endpoint and the other two (only the configuration keys read are compared, not the matching logic); correctness of encoding/json and net/rpc (the method-name agreement relies on both decoders being encoding/json with the same field tag, which is checked); basic-auth string comparison details.",
